@@ -530,6 +530,13 @@ class ScaleAnalysis:
         return self.obls
 
 
+def kwname(kwvar, var):
+    for k, v in kwvar.items():
+        if v == var:
+            return k
+    return var
+
+
 def props_for(f):
     q = f.qual
     m = f.module.name
@@ -628,25 +635,50 @@ def r12_unit_scale(ctx):
              (kwvar.get("hours"), kwvar.get("days"))]
     found = 0
     for n in walk_no_nested(sub.node):
-        if isinstance(n, ast.If) and isinstance(n.test, ast.Compare) and \
-                U(n.test.comparators[0]) == "0" and isinstance(
-                    n.test.ops[0], ast.Lt):
-            low = U(n.test.left)
-            decs = [U(s.target) for s in n.body if isinstance(
-                s, ast.AugAssign) and isinstance(s.op, ast.Sub) and
-                U(s.value) == "1"]
-            incs = [U(s.target) for s in n.body if isinstance(
-                s, ast.AugAssign) and isinstance(s.op, ast.Add)]
-            for lo, hi in chain:
-                if low == lo:
-                    found += 1
-                    rep.check(decs == [hi] and incs == [lo],
-                              "R12.borrow-chain",
-                              ctx.fkey(sub, None, "borrow:" + lo),
-                              sub.loc(n), "a negative %s borrows one from "
-                              "%s" % (lo, hi),
-                              "borrow for %s decrements %s and refills %s" %
-                              (lo, decs, incs), ("C04",))
+        if not isinstance(n, ast.If):
+            continue
+        decs = [U(s.target) for s in n.body if isinstance(
+            s, ast.AugAssign) and isinstance(s.op, ast.Sub) and
+            U(s.value) == "1"]
+        incs = [U(s.target) for s in n.body if isinstance(
+            s, ast.AugAssign) and isinstance(s.op, ast.Add)]
+        for lo, hi in chain:
+            if incs == [lo] or decs == [hi]:
+                found += 1
+                t = n.test
+                on_running = (isinstance(t, ast.Compare) and len(t.ops) == 1
+                              and U(t.left) == lo and isinstance(
+                                  t.ops[0], ast.Lt) and
+                              U(t.comparators[0]) == "0") or (
+                                  isinstance(t, ast.Compare) and
+                                  U(t.comparators[0]) == lo and isinstance(
+                                      t.ops[0], ast.Gt) and U(t.left) == "0")
+                if not on_running and (lo, hi) == chain[0] and isinstance(
+                        t, ast.Compare) and len(t.ops) == 1 and isinstance(
+                            t.ops[0], ast.Lt):
+                    # lowest unit: `a < b` where lo = a - b is the same test
+                    for d_ in walk_no_nested(sub.node):
+                        if isinstance(d_, ast.Assign) and U(
+                                d_.targets[0]) == lo and isinstance(
+                                    d_.value, ast.BinOp) and isinstance(
+                                        d_.value.op, ast.Sub) and \
+                                U(d_.value.left) == U(t.left) and \
+                                U(d_.value.right) == U(t.comparators[0]):
+                            on_running = True
+                rep.check(decs == [hi] and incs == [lo] and on_running,
+                          "R12.borrow-chain",
+                          ctx.fkey(sub, None, "borrow:%s" % kwname(kwvar, lo)),
+                          sub.loc(n), "a negative running difference of the "
+                          "%s borrows one from the next unit up" % kwname(
+                              kwvar, lo),
+                          "borrow for the %s is decided by `%s`, decrements "
+                          "%s and refills %s: it must test the *running* "
+                          "difference `%s < 0` (after the borrow taken by "
+                          "the unit below), decrement the next unit up once "
+                          "and refill its own unit" % (
+                              kwname(kwvar, lo), U(t), decs, incs, lo),
+                          ("C04",))
+                break
     if found != 3:
         rep.error("R12", "TimePoint.__sub__: borrow chain not recognised")
     ctx.cache.setdefault("extra:C01", {})["unit_obligations"] = len(seen)
